@@ -810,145 +810,25 @@ class PhaseField(_IModel):
             tic.Tac("Split", "Eigenprojectors", False)
 
         elif self.dim == 3:
-            # [Q.-C. He Closed-form coordinate-free]
+            # Symmetric eigen-solver (LAPACK), batched over every (element, Gauss point).
+            # The closed-form Lode-angle formulas [Q.-C. He] used before are singular exactly where
+            # they are needed (two or three equal eigenvalues: uniaxial, hydrostatic, unloaded
+            # states): NaN from arccos(arg > 1) and sqrt(g < 0), wrong branch after rounding
+            # (theta == 0 / pi/3 tested exactly), branch chosen per element instead of per point.
+            vals, vecs = np.linalg.eigh(np.asarray(matrix_e_pg))
+            # eigenvalues in ascending order (e, pg, 3), eigenvectors in columns (e, pg, 3, 3)
 
-            # Invariants
-            I1_e_pg = Trace(matrix_e_pg)
-            I2_e_pg = 1 / 2 * (I1_e_pg**2 - Trace(matrix_e_pg @ matrix_e_pg))
-            I3_e_pg = Det(matrix_e_pg)
+            eigs_e_pg = FeArray.asfearray(vals)
 
-            tic.Tac("Split", "Invariants", False)
+            tic.Tac("Split", "Eigenvalues", False)
 
-            g_e_pg = I1_e_pg**2 - 3 * I2_e_pg
-            sqrt_g_e_pg = np.sqrt(g_e_pg)
+            # eigenprojectors Mi = ni x ni [e,pg,3,3]
+            M1, M2, M3 = [
+                FeArray.asfearray(vecs[..., :, np.newaxis, i] * vecs[..., np.newaxis, :, i])
+                for i in range(3)
+            ]
 
-            g_neq_0 = g_e_pg != 0
-
-            arg = 1 / 2 * (2 * I1_e_pg**3 - 9 * I1_e_pg * I2_e_pg + 27 * I3_e_pg)
-            np.divide(
-                arg,
-                g_e_pg ** (3 / 2),
-                out=arg,
-                where=g_neq_0,
-            )
-
-            # Lode's angle such that 0 <= theta <= pi/3
-            theta = 1 / 3 * np.arccos(arg)
-
-            # -------------------------------------
-            # Init eigenvalues an eigenprojectors for case 4
-            # 𝜖1 = 𝜖2 = 𝜖3 ⇐⇒ 𝑔 = 0.
-            # -------------------------------------
-            val1_e_pg = I1_e_pg / 3
-            val2_e_pg = I1_e_pg / 3
-            val3_e_pg = I1_e_pg / 3
-
-            # Init proj matrices
-            M1 = FeArray.zeros(*matrix_e_pg.shape)
-            M1[..., 0, 0] = 1
-            # M2 = FeArray.zeros(*matrix_e_pg.shape)
-            # M2[..., 1, 1] = 1
-            M3 = FeArray.zeros(*matrix_e_pg.shape)
-            M3[..., 2, 2] = 1
-
-            tic.Tac("Split", "proj case 4", False)
-
-            I_rg = 1 / 3 * ((I1_e_pg - sqrt_g_e_pg) * I_e_pg)
-
-            # -------------------------------------
-            # 2. Two maximum eigenvalues
-            # 𝜖1 < 𝜖2 = 𝜖3 ⇐⇒ 𝑔 ≠ 0, 𝜃 = 𝜋∕3.
-            # arg = -1
-            # -------------------------------------
-
-            test2 = g_neq_0 & (theta == np.pi / 3)
-
-            case2 = np.unique(np.where(test2)[0])
-
-            if len(case2) > 0:
-                val1_e_pg[case2] += -2 / 3 * sqrt_g_e_pg[case2]
-                val2_e_pg[case2] += 1 / 3 * sqrt_g_e_pg[case2]
-                val3_e_pg[case2] += 1 / 3 * sqrt_g_e_pg[case2]
-
-                M1[case2] = (g_e_pg ** (-1 / 2) * (I_rg - matrix_e_pg))[case2]
-                # M2[case2] = 1 / 2 * (I_e_pg - M1)[case2]
-                M3[case2] = 1 / 2 * (I_e_pg - M1)[case2]
-
-                tic.Tac("Split", "proj case 2", False)
-
-            # -------------------------------------
-            # 3. Two minimum eigenvalues
-            # 𝜖1 = 𝜖2 < 𝜖3 ⇐⇒ 𝑔 ≠ 0, 𝜃 = 0.
-            # arg = 1
-            # -------------------------------------
-
-            test3 = g_neq_0 & (theta == 0)
-
-            case3 = np.unique(np.where(test3)[0])
-
-            if len(case3) > 0:
-                val1_e_pg[case3] += -1 / 3 * sqrt_g_e_pg[case3]
-                val2_e_pg[case3] += -1 / 3 * sqrt_g_e_pg[case3]
-                val3_e_pg[case3] += 2 / 3 * sqrt_g_e_pg[case3]
-
-                M3[case3] = (g_e_pg ** (-1 / 2) * (matrix_e_pg - I_rg))[case3]
-                M1[case3] = 1 / 2 * (I_e_pg - M3)[case3]
-                # M2[case3] = 1 / 2 * (I_e_pg - M3)[case3]
-
-                tic.Tac("Split", "proj case 3", False)
-
-            # -------------------------------------
-            # 1. Three distinct eigenvalues
-            # 𝜖1 < 𝜖2 < 𝜖3 ⇐⇒ 𝑔 ≠ 0, 𝜃 ≠ 0, 𝜃 ≠ 𝜋∕3.
-            # -------------------------------------
-
-            test1 = g_neq_0 & (theta != 0) & (theta != np.pi / 3)
-
-            case1 = np.setdiff1d(
-                np.unique(np.where(test1)[0]), np.union1d(case2, case3)
-            )
-
-            if len(case1) > 0:
-                val1_e_pg[case1] += (
-                    2 / 3 * (sqrt_g_e_pg * np.cos(2 * np.pi / 3 + theta))[case1]
-                )
-                val2_e_pg[case1] += (
-                    2 / 3 * (sqrt_g_e_pg * np.cos(2 * np.pi / 3 - theta))[case1]
-                )
-                val3_e_pg[case1] += 2 / 3 * (sqrt_g_e_pg * np.cos(theta))[case1]
-
-                # Compute projectors only on the case1 subset — avoids full-(Ne,nPg) matmuls
-                v1_c1 = val1_e_pg[case1]
-                v2_c1 = val2_e_pg[case1]
-                v3_c1 = val3_e_pg[case1]
-                mat_c1 = matrix_e_pg[case1]
-
-                M1[case1] = (
-                    (mat_c1 - v2_c1 * np.eye(3))
-                    @ (mat_c1 - v3_c1 * np.eye(3))
-                    / ((v1_c1 - v2_c1) * (v1_c1 - v3_c1))
-                )
-                M3[case1] = (
-                    (mat_c1 - v1_c1 * np.eye(3))
-                    @ (mat_c1 - v2_c1 * np.eye(3))
-                    / ((v3_c1 - v1_c1) * (v3_c1 - v2_c1))
-                )
-
-                tic.Tac("Split", "proj case 1", False)
-
-            # -------------------------------------
-            # merge values in eigs_e_pg
-            # -------------------------------------
-            eigs_e_pg = FeArray.zeros(Ne, nPg, 3)
-            eigs_e_pg[:, :, 0] = val1_e_pg
-            eigs_e_pg[:, :, 1] = val2_e_pg
-            eigs_e_pg[:, :, 2] = val3_e_pg
-
-            M1 = normalize_matrix(M1)
-            # M2 = normalize_matrix(M2)
-            M3 = normalize_matrix(M3)
-
-            M2 = I_e_pg - (M1 + M3)
+            tic.Tac("Split", "Eigenprojectors", False)
 
         # transform eigenbases in the form of a vector [e,pg,3] or [e,pg,6].
         if dim == 2:
